@@ -165,7 +165,7 @@ def _build_model(cfg: dict, cells: Dict[str, list], script: Script, dtype):
     stage = cfg.get('stage')
     span = _span(cfg)
     if not stage:
-        m = M(span, dtype=dtype)
+        m = M(span, dtype=dtype, **({'strict': True} if cfg.get('strict') else {}))
     else:
         wide = ([span[0] - 1] + span + [span[-1] + 1]) if stage == 'reindex' and span else span
         m = M(wide, dtype=dtype)
